@@ -1,5 +1,5 @@
 import VtlModel.Sem.ValidDpLemmas
-import VtlModel.Sem.HierChLemmas
+import VtlModel.Sem.HierHWfLemmas
 import VtlModel.Props.C33
 /-! # C07 — validation and hierarchy operators report exactly the failing datapoints (model part)
 
@@ -10,9 +10,10 @@ Over the models `VtlModel.Sem.Valid` (`check`, `check_datapoint`) and `VtlModel.
   `check_WF`, `check_perm` (+ the counter-example `check_inner_join_drops_counter` for the engine's join);
 * part 2 `check_datapoint`: `when_false_holds`, `dp_invalid_iff`, `dp_all_rows`, `dp_ruleid`,
   `dp_err_iff_false`, `dp_WF`, `dp_perm`;
-* part 3 hierarchical rulesets: `hier_value`, `imbalance_eq_left_minus_right`, `ch_invalid_iff`,
-  `ch_all_iff`, `ch_err_iff_false`, `hier_order_independent` (+ `isValidOrder_iff`,
-  `invalid_order_changes_result_counter`).
+* part 3 hierarchical rulesets: `hier_value_sum`, `hier_value`, `imbalance_eq_left_minus_right`,
+  `ch_report_iff`, `ch_err_iff_false`, `hier_order_independent_group`, `hier_order_independent`
+  (+ `isValidOrder_spec`, `invalid_order_changes_result_counter`), `ch_WF`, `hier_WF`, `ch_perm`,
+  `hier_perm`, `validation_extends`.
 
 The tie to the implementation is the correspondence of `harness/checks/c07.py`. -/
 namespace VtlModel.C07
@@ -422,5 +423,33 @@ theorem invalid_order_changes_result_counter :
     aOf (hierarchy [ruleC, ruleA] .nonNull .rule false "Id_2" hx) = .ok [.num 8] ∧
     aOf (hierarchy [ruleA, ruleC] .nonNull .rule false "Id_2" hx) = .ok [.num 15] := by
   decide +kernel
+
+/-- `check_hierarchy` and `hierarchy` preserve key uniqueness (plug into `C10.evalD_WF` through `app1`). -/
+theorem ch_WF (rules : List HRule) (mode : HMode) (out : DPOut) (rc : String) :
+    ∀ x r, x.WF → checkHierarchy rules mode out rc x = .ok r → r.WF :=
+  fun x r _ h => checkHierarchy_WF_aux rules mode out rc x r h
+
+theorem hier_WF (rules : List HRule) (mode : HMode) (imode : HInput) (all : Bool) (rc : String) :
+    ∀ x r, x.WF → hierarchy rules mode imode all rc x = .ok r → r.WF :=
+  fun x r w h => hierarchy_WF_aux rules mode imode all rc x r w h
+
+/-- `check_hierarchy` and `hierarchy` respect permutation of the operand's rows (plug into `C33.evalD_perm`). -/
+theorem ch_perm (rules : List HRule) (mode : HMode) (out : DPOut) (rc : String) :
+    ∀ x x', x.WF → DSEquiv x x' → REquiv (checkHierarchy rules mode out rc x) (checkHierarchy rules mode out rc x') :=
+  fun x x' w hx => checkHierarchy_perm_aux rules mode out rc x x' w hx
+
+theorem hier_perm (rules : List HRule) (mode : HMode) (imode : HInput) (all : Bool) (rc : String) :
+    ∀ x x', x.WF → DSEquiv x x' → REquiv (hierarchy rules mode imode all rc x) (hierarchy rules mode imode all rc x') :=
+  fun x x' w hx => hierarchy_perm_aux rules mode imode all rc x x' w hx
+
+/-- expressions built from the four operators are covered by `C10.evalD_WF` and `C33.evalD_perm`. -/
+theorem validation_extends (d : DExpr) (hd : ExtWF d) (pd : ExtPerm d)
+    (dprules : List DPRule) (dout : DPOut) (hrules : List HRule) (mode : HMode) (out : DPOut) (imode : HInput) (all : Bool) (rc : String) :
+    (ExtWF (.app1 (checkDatapoint dprules dout) d) ∧ ExtPerm (.app1 (checkDatapoint dprules dout) d)) ∧
+    (ExtWF (.app1 (checkHierarchy hrules mode out rc) d) ∧ ExtPerm (.app1 (checkHierarchy hrules mode out rc) d)) ∧
+    (ExtWF (.app1 (hierarchy hrules mode imode all rc) d) ∧ ExtPerm (.app1 (hierarchy hrules mode imode all rc) d)) :=
+  ⟨⟨⟨hd, dp_WF dprules dout⟩, ⟨pd, dp_perm dprules dout⟩⟩,
+   ⟨⟨hd, ch_WF hrules mode out rc⟩, ⟨pd, ch_perm hrules mode out rc⟩⟩,
+   ⟨⟨hd, hier_WF hrules mode imode all rc⟩, ⟨pd, hier_perm hrules mode imode all rc⟩⟩⟩
 
 end VtlModel.C07
